@@ -116,7 +116,7 @@ def run_with_fault(cfg, fault, procs=1, mp=False):
 
 def run(ctx):
     from fast_ticc import front_end
-    ctx.proof_layer(allowed_axioms=(), coq_deps=["Corr/RunMainLoop"])
+    ctx.proof_layer(allowed_axioms=(), coq_deps=["Corr/RunMainLoop"], gen=["main_loop"])
     core.note_drift(ctx, ANCHORS)
     cov = core.LineCoverage()
     replay_lits, meta = [], []
